@@ -661,6 +661,8 @@ def vf_int(x=0, *a):
 def vf_float(x=0.0):
     if isinstance(x, Sym):
         return cast_scalar(x, float)
+    if isinstance(x, _np.ndarray) and x.dtype == object and x.size == 1 and _has_sym(x):
+        return cast_scalar(x.reshape(-1)[0], float)
     return builtins.float(x)
 
 
